@@ -35,6 +35,9 @@ import itertools
 from dataclasses import dataclass, field
 
 TRANSPARENT = {"tqdm", "list", "tuple", "iter"}
+# tuple IR of a namedtuple row written out by normalize.namedtuple_rows -> (field names, type name); values are hash-consed, so the
+# table is shared by all flows (an entry seen with two different meanings is blanked)
+_NT_ROWS: dict = {}
 
 
 @dataclass
@@ -297,8 +300,37 @@ class Flow:
             for nm, val in base[2]:
                 if nm == n.attr:
                     return val
+        if base[0] == "tuple":
+            fs = _NT_ROWS.get(base, ((), None))[0]
+            if n.attr in fs:
+                return base[1][fs.index(n.attr)]
         r = self._record_field(base, n.attr)
         return r if r is not None else ("attr", base, n.attr)
+
+    def _as_record(self, obj):
+        """("record", type, ((field, value), ..)) for a value that is an instance of a record type of the module with every field
+        known -- `R(a, y=b)` of a type in self.records, a namedtuple row written out as a display, a record IR -- else None"""
+        if not isinstance(obj, tuple) or not obj:
+            return None
+        if obj[0] == "record":
+            return obj
+        if obj[0] == "tuple":
+            fs, tname = _NT_ROWS.get(obj, ((), None))
+            if fs and tname and len(fs) == len(obj[1]):
+                return ("record", tname, tuple(zip(fs, obj[1])))
+            return None
+        if obj[0] == "call" and obj[1][0] == "global" and obj[1][1] in self.records and obj[1][1] not in self.env:
+            fields = self.records[obj[1][1]]
+            args, kws = obj[2], dict(obj[3])
+            if any(a[0] == "star" for a in args) or "**" in kws or len(args) > len(fields) or any(k not in fields for k in kws):
+                return None
+            given = dict(zip(fields, args))
+            if set(given) & set(kws):
+                return None
+            given.update(kws)
+            if all(fl_ in given for fl_ in fields):
+                return ("record", obj[1][1], tuple((fl_, given[fl_]) for fl_ in fields))
+        return None
 
     def _record_field(self, base, field):
         """`R(a, b).f` with R a record type of the module (typing.NamedTuple / collections.namedtuple, see core._Canon._records) is the
@@ -343,7 +375,14 @@ class Flow:
         return ("list", tuple(self.ev(e) for e in n.elts))
 
     def e_Tuple(self, n):
-        return ("tuple", tuple(self.ev(e) for e in n.elts))
+        v = ("tuple", tuple(self.ev(e) for e in n.elts))
+        fs = getattr(n, "_nt_fields", None)
+        if fs and len(fs) == len(v[1]):
+            # a namedtuple row written out by normalize.namedtuple_rows: remember the names of its positions, so that `row.field`
+            # read through a local (`h = _Hopping(thermal=.., tunnel=..)` .. `h.thermal`) is the element (see e_Attribute)
+            ent = (tuple(fs), getattr(n, "_nt_type", None))
+            _NT_ROWS[v] = ent if _NT_ROWS.get(v, ent) == ent else ((), None)
+        return v
 
     def e_Set(self, n):
         return ("set", tuple(self.ev(e) for e in n.elts))
@@ -563,6 +602,21 @@ class Flow:
                     inl = self._inline(callee, args, dict(kws), recv=obj)
                     if inl is not None:
                         return inl
+            # a method of a record class of the module called on a record whose fields are all known (`R(a, b).m(x)`, a namedtuple row
+            # `(..).m(x)`): the value the method returns with `self` standing for that record
+            rec = self._as_record(obj)
+            if rec is not None and self._depth < 2 and all(k != "**" for k, _ in kws):
+                callee = (getattr(self.func, "_sa_record_methods", None) or {}).get(rec[1], {}).get(f.attr)
+                flat = []
+                for a in args:          # `m(*t)` with t a display is m(t[0], t[1], ..)
+                    if a[0] == "star" and simp(a[1])[0] in ("tuple", "list") and not any(e[0] == "star" for e in simp(a[1])[1]):
+                        flat.extend(simp(a[1])[1])
+                    else:
+                        flat.append(a)
+                if callee is not None and not any(a[0] == "star" for a in flat):
+                    inl = self._inline(callee, tuple(flat), dict(kws), recv=rec)
+                    if inl is not None:
+                        return inl
             return ("meth", obj, f.attr, args, kws)
         # dispatch table: `table = {"k": self._m1, ...}; fn = table.get(key) / table[key]; fn(args)` is the if/elif chain
         # `key == "k" -> self._m1(args)` written as data
@@ -600,6 +654,18 @@ class Flow:
                     given = {**dict(ctor[3]), **given} if len(ctor) > 3 else given
                     if all(fl_ in given for fl_ in fields):
                         return ("record", ctor[1], tuple((fl_, given[fl_]) for fl_ in fields))
+        # functools.reduce(helper, [e1, e2, ..], init) with `helper` a small module-level function (func_resolver): the left fold written
+        # out, helper(helper(init, e1), e2) .., each application read as the value the helper returns (simp does the same for a lambda)
+        if ((isinstance(f, ast.Name) and f.id == "reduce" and f.id not in self.env) or (isinstance(f, ast.Attribute) and f.attr == "reduce" and ast.unparse(f.value) == "functools")) \
+                and self.func_resolver is not None and len(args) == 3 and not kws and args[0][0] == "global" and self._depth < 2:
+            seq = simp(args[1])
+            callee = self.func_resolver(args[0][1])
+            if callee is not None and callee is not self.func and seq[0] in ("list", "tuple") and len(seq[1]) <= 16 and not any(e[0] == "star" for e in seq[1]):
+                acc = args[2]
+                for e in seq[1]:
+                    acc = self._inline(callee, (acc, e), {}, bare=True) if acc is not None else None
+                if acc is not None:
+                    return acc
         if isinstance(f, ast.Name) and self.func_resolver is not None and f.id not in self.env and self._depth < 2 and all(k != "**" for k, _ in kws):
             callee = self.func_resolver(f.id)
             if callee is not None and callee is not self.func:
